@@ -6,8 +6,9 @@ FAMILY = "C09"
 VARIANTS = ("asan",)
 BUDGET = {"quick": dict(examples=16000, seconds=60), "thorough": dict(examples=400000, seconds=540)}
 NONTRIVIAL = {'restart', 'end-with-obligations', 'end-with-waiters'}
-PROFILES = [(4, 'lifecycle'), (1, 'mixed')]
-RULE = ('Hypothesis-generated scenarios (profile lifecycle 80%, mixed 20%): processes ending by return / exit / stop-by-other / stop-self while running, holding resources and pool units, blocked on any wait, with timers armed and wake-ups pending, with waiters, followed by restarts. Oracle: every waiter returns once in the end instant with SUCCESS (normal end) or STOPPED (stop) or leaves for another ledgered reason; after the end event the library attributes no holding to the ended process, no event with it as subject remains, it produces no further trace record, status is FINISHED and the exit value is the returned / exited / stopped value; a restarted process enters its function with its own handle and context and nothing held. Non-trivial = the ending process had holdings, timers or a wait in progress, or had waiters, or was restarted. distinct = SHA-1 of the scenario text.')
+PROFILES = [(4, 'lifecycle'), (2, 'timing'), (1, 'mixed')]
+RULE = ('Hypothesis-generated scenarios (profiles lifecycle 57%, timing 29%, mixed 14%): processes ending by return / exit / stop-by-other / stop-self while running, holding resources and pool units, blocked on any wait, with timers armed and wake-ups pending, with waiters, followed by restarts. Oracle: every waiter returns once in the end instant with SUCCESS (normal end) or STOPPED (stop) or leaves for another ledgered reason; after the end event the library attributes no holding to the ended process, no event with it as subject remains, it produces no further trace record, status is FINISHED and the exit value is the returned / exited / stopped value; a restarted process enters its function with its own handle and context and nothing held. Non-trivial = the ending process had holdings, timers or a wait in progress, or had waiters, or was restarted. distinct = SHA-1 of the scenario text.')
+RULE = RULE + simprop.RULE_SUFFIX
 ASSUMPTIONS = ["trace oracles in pbt/simtrace.py (soundness rules DESIGN.md par. 2.1)",
                "operations whose documented precondition is false when reached are skipped by the interpreter "
                "(counted), never executed"]
